@@ -210,6 +210,10 @@ func vfC05Check(c vfC05Case) error {
 	var universe []vfPerm
 	for name, tc := range lib.testCases {
 		universe = append(universe, vfPerm{name: name, tuple: vfTuple(tc.Request)})
+		// (where the name spells the TLS axis, the server instance the permutation is filed under has to agree with it)
+		if tls := len(tc.Request.ServerTlsCert) > 0; (strings.Contains(name, "/TLS:false/") && tls) || (strings.Contains(name, "/TLS:true/") && !tls) {
+			return verifkit.Violf("name-server-mismatch", "permutation %q is filed under a server instance with TLS=%v (client certs %v)", name, tls, tc.Request.ClientTlsCreds != nil)
+		}
 		simple := lib.testCaseNames[name]
 		prefix := strings.TrimSuffix(name, simple)
 		if c.Mode == "client" && vfGRPCApplies(tc.Request, false, true) {
@@ -598,7 +602,16 @@ func TestVerifC05Dispatch(t *testing.T) {
 			c.Corpus = rapid.IntRange(0, 2).Draw(t, "corpus") == 0
 			if !c.Corpus {
 				modeNum := map[string]int32{"both": 0, "client": 1, "server": 2}[c.Mode]
-				c.Suites = vfClearPresets(vfGenSuites(t, modeNum))
+				c.Suites = vfGenSuites(t, modeNum)
+				if c.Mode != "both" {
+					c.Suites = vfClearPresets(c.Suites)
+				}
+				for i := range c.Suites {
+					for j := range c.Suites[i].Cases {
+						// (scripted peers: a suite file may carry stale TLS material, which the runner replaces)
+						c.Suites[i].Cases[j].Preset &= 3
+					}
+				}
 				for i := range c.Suites {
 					// raw responses need an explicit expectation and a real server: not here
 					for j := range c.Suites[i].Cases {
